@@ -110,7 +110,7 @@ PROPS = {
              'Distinct = distinct tapes. Thorough adds a hook-free run of 2^31+1000 real mlog calls.',
         stages=[
             dict(h='mlog', mode='rc', what='random histories', quick=dict(cases=300000, len=200),
-                 thorough=dict(cases=1000000, len=200)),
+                 thorough=dict(cases=6000000, len=200)),
             dict(h='mlog', mode='custom', what='hook-free 2^31+1000 messages', tiers=('thorough',), workers=1,
                  thorough=dict(timeout=3000, watchdog=0)),
         ],
@@ -326,7 +326,9 @@ PROPS = {
              'window straddling 0xffffffff->0 or 0x7fffffff->0x80000000 with timers in use. Distinct = distinct tapes.',
         stages=[
             dict(h='fibre', mode='rc', what='timer-heavy random histories', params=dict(oracle=2, profile=2),
-                 quick=dict(cases=200000, len=500), thorough=dict(cases=5000000, len=500)),
+                 quick=dict(cases=400000, len=500), thorough=dict(cases=30000000, len=500)),
+            dict(h='fibre', mode='fuzz', what='libFuzzer over timer-heavy histories', params=dict(oracle=2, profile=2),
+                 quick=dict(runs=300000, max_len=600, len=500), thorough=dict(runs=20000000, max_len=600, len=500, timeout=3000)),
         ],
         require={'two-or-more-sleepers-expire-in-one-pass': 1000, 'timer-cancelled-by-run-or-kill': 1000,
                  'window-straddles-a-wrap-point': 1000, 'metamorphic-base-0-replay': 1000},
